@@ -88,6 +88,46 @@ class SimStream:
         return chunk
 
 
+def _bits(v):
+    if isinstance(v, complex):
+        return struct.pack('dd', v.real, v.imag)
+    if isinstance(v, float):
+        return struct.pack('d', v)
+    return v
+
+
+def same_dense(X, M):
+    """size, typecode and every value exactly (nan equals nan; denormals, infinities and 64-bit integers included)"""
+    from cvxopt import matrix
+    if not isinstance(X, matrix) or X.size != (M.m, M.n) or X.typecode != M.tc:
+        return False
+    xv = list(X)
+    if len(xv) != len(M.v):
+        return False
+    return all(same_value(a, b) for a, b in zip(xv, M.v))
+
+
+def _same_part(a, b):
+    # equal as numbers (this lets +0.0 pass for -0.0: BLAS scaling and complex construction do not keep the sign
+    # of a zero), or the same bits (nan)
+    return a == b or struct.pack('d', a) == struct.pack('d', b)
+
+
+def same_value(a, b):
+    if type(a) is not type(b):
+        return False
+    if isinstance(a, complex):
+        return _same_part(a.real, b.real) and _same_part(a.imag, b.imag)
+    if isinstance(a, float):
+        return _same_part(a, b)
+    return a == b
+
+
+SPECIAL = {'d': [0.1, -0.0, float('inf'), float('-inf'), float('nan'), 5e-324, 1.7e308, 2.0 ** 40 + 0.5, 1.0 / 3.0],
+           'i': [2 ** 40, -2 ** 35 - 1, 2 ** 62, -2 ** 63, 2 ** 31, -2 ** 31 - 1, 7],
+           'z': [[0.1, -0.0], [float('nan'), float('inf')], [-0.0, 5e-324], [1.7e308, -1.0 / 3.0]]}
+
+
 class SimStreamRI(SimStream):
     """a stream that also offers readinto(), as real files and io.BytesIO do"""
 
@@ -174,7 +214,11 @@ def gen_op(rng, w):
     dense = w.sorted_names(sparse=False)
     if not names or (len(names) < 2 and rng.random() < 0.6) or (len(names) < 6 and rng.random() < 0.07):
         if rng.random() < 0.7:
-            return ['new', w.fresh(), DNS.gen_dense(rng)]
+            spec = DNS.gen_dense(rng)
+            if rng.random() < 0.25 and spec['v']:
+                # values that only survive an exact transport: nan, infinities, signed zeros, denormals, 64-bit integers
+                spec = dict(spec, v=[rng.choice(SPECIAL[spec['tc']]) if rng.random() < 0.6 else x for x in spec['v']], special=True)
+            return ['new', w.fresh(), spec]
         return ['new', w.fresh(), SPS.gen_sparse(rng)]
     vnames = sorted((k for k, v in w.views.items() if not v['released']), key=lambda s: int(s[1:]))
     r = rng.random()
@@ -268,6 +312,9 @@ def _gen_import(rng, w):
         tcode = rng.choice(['i', 'l', 'q', 'd'])
         k = rng.randint(0, 6)
         vals = [float(rng.randint(-3, 3)) if tcode == 'd' else rng.randint(-3, 3) for _ in range(k)]
+        if rng.random() < 0.3 and tcode in ('l', 'd', 'i'):
+            pool_ = SPECIAL['d'] if tcode == 'd' else ([2 ** 30, -2 ** 31, 7] if tcode == 'i' else SPECIAL['i'])
+            vals = [rng.choice(pool_) if rng.random() < 0.6 else x for x in vals]
         return ['import', nm, {'k': 'array', 'tcode': tcode, 'v': vals}]
     if kind == 'strided':
         tcode = rng.choice(['l', 'd', 'q'])
@@ -321,6 +368,11 @@ def apply(op, w, stats, rngless=None):
         spec = op[2]
         if spec['k'] == 'sparse':
             w.bind(op[1], SPS.mk(spec), sm_of(spec))
+        elif spec.get('special'):
+            # the values that count are the ones the constructor stored (it is not the subject here; e.g. an
+            # infinite imaginary part arrives with a nan real part): from now on they only travel
+            X0 = SPS.mk(spec)
+            w.bind(op[1], X0, MDL.MM(spec['tc'], spec['m'], spec['n'], list(X0)))
         else:
             w.bind(op[1], SPS.mk(spec), DNS.model_of(spec))
         return
@@ -457,6 +509,12 @@ def apply(op, w, stats, rngless=None):
             return
         oid, X = w.names[op[1]]
         M = w.objs[oid]['M']
+
+        def plain(v):
+            parts = (v.real, v.imag) if isinstance(v, complex) else (v,)
+            return all(p_ == p_ and abs(p_) <= 1e6 and float(p_) == int(p_) for p_ in parts)
+        if not all(plain(v) for v in M.v):
+            return      # special values only travel; arithmetic on nan/inf/2^62 is not this engine's subject
         v = DNS.lit(op[3]['v'])
         try:
             MDL.inplace(M, op[2], v)
@@ -543,7 +601,7 @@ def apply(op, w, stats, rngless=None):
         if Y is X:
             raise Mismatch('copy-is-alias', '%s returned the same object' % how, op='copy', how=how.split(':')[0])
         M2 = M.copy()
-        ok = same_sparse(Y, M2) if e['sparse'] else DNS.same(Y, M2)
+        ok = same_sparse(Y, M2) if e['sparse'] else same_dense(Y, M2)
         if not ok:
             raise Mismatch('roundtrip-differs', '%s of a %s %s matrix does not reproduce it (got %s %s)' %
                            (how, 'sparse' if e['sparse'] else 'dense', M.tc, getattr(Y, 'typecode', None), getattr(Y, 'size', None)),
@@ -561,7 +619,7 @@ def apply(op, w, stats, rngless=None):
             if len(X) > 0:
                 old = X[0]
                 X[0] = old + 1
-                indep = DNS.same(Y, M2)
+                indep = same_dense(Y, M2)
                 X[0] = old
             else:
                 indep = True
@@ -624,7 +682,7 @@ def apply(op, w, stats, rngless=None):
             w.flags.add('stream_fault_fired')
         if exc is None:
             # returned normally: the data must be exact, whatever the stream did
-            if not DNS.same(T, M):
+            if not same_dense(T, M):
                 raise Mismatch('roundtrip-differs', 'tofile/fromfile returned normally but the matrix differs (fault %r fired=%s)' % (fault, st.fired),
                                op='file', fault=fault[0] if fault else None)
             w.bind(op[1], T, M.copy())
@@ -634,7 +692,7 @@ def apply(op, w, stats, rngless=None):
             want = {'eof': EOFError, 'read_oserror': OSError, 'read_str': TypeError, 'write_oserror': OSError}[fault[0]]
             if not isinstance(exc, want):
                 raise Mismatch('exception-type', 'stream fault %s surfaced as %s(%s)' % (fault[0], type(exc).__name__, exc), op='file', fault=fault[0])
-            if not DNS.same(T, TM):
+            if not same_dense(T, TM):
                 raise Mismatch('failed-read-changed-matrix', 'fromfile raised %s but modified its matrix' % type(exc).__name__, op='file', fault=fault[0])
         return
     if kind == 'import':
@@ -748,13 +806,13 @@ def apply(op, w, stats, rngless=None):
         if want is None:
             raise Mismatch('import-accepted-unsupported', 'matrix(%s) of an unsupported buffer format was accepted as %s %s' %
                            (k, Y.typecode, Y.size), op='import', src=k)
-        if not DNS.same(Y, want):
+        if not same_dense(Y, want):
             raise Mismatch('import-differs', 'matrix(%s %s buffer) gives %s %s %r, expected %s %s %r' %
                            (k, spec.get('tcode'), Y.typecode, Y.size, list(Y)[:8], want.tc, want.size, want.v[:8]), op='import', src=k, tcode=spec.get('tcode'))
         if mutate is not None and len(mutate) > 0:
             for q in range(len(mutate)):
                 mutate[q] = mutate[q] + 1
-            if not DNS.same(Y, want):
+            if not same_dense(Y, want):
                 raise Mismatch('import-shares-storage', 'the matrix built from a %s buffer changed when the source was mutated' % k, op='import', src=k)
         if k in ('array', 'strided', 'cast2d') and not source_released():
             raise Mismatch('import-keeps-source-exported', 'after matrix(%s buffer) the source object is still exporting a buffer' % k, op='import', src=k, refused=False)
@@ -766,7 +824,7 @@ def apply(op, w, stats, rngless=None):
 def check_world(w, opname):
     for name, (oid, X) in w.names.items():
         e = w.objs[oid]
-        ok = same_sparse(X, e['M']) if e['sparse'] else DNS.same(X, e['M'])
+        ok = same_sparse(X, e['M']) if e['sparse'] else same_dense(X, e['M'])
         if not ok:
             raise Mismatch('owner-differs', 'after %s: %s no longer equals the model' % (opname, name), op=opname)
     for vn, v in w.views.items():
@@ -774,7 +832,7 @@ def check_world(w, opname):
             continue
         M = w.objs[v['oid']]['M']
         got = view_values(v['mv'], M.tc)
-        if got != list(M.v) or any(type(a) is not type(b) for a, b in zip(got, M.v)):
+        if len(got) != len(M.v) or not all(same_value(a, b) for a, b in zip(got, M.v)):
             orphan = not w.owner_names(v['oid'])
             raise Mismatch('view-differs', 'after %s: memoryview %s reads %r, the storage holds %r (%s)' %
                            (opname, vn, got[:6], M.v[:6], 'owner dropped' if orphan else 'owner alive'), op=opname, orphan=orphan)
